@@ -65,6 +65,19 @@ CHECKS = {
             'Fork/join shapes (nested joins, joins fed by on-error/on-complete, guards that do not fire) and reverse requires-graphs under '
             'adversarial completion orders; TLC judges JoinGate, JoinOnce, Caused, ReqGate, OnlyNeededOnce, NoWaitingAtRest on every step.',
             'Serial transactions in one process (tx_lock) - statement-level races between engine processes are out of reach here; sqlite; RPC transport, post-commit thread spawning, scheduler threads and action bodies replaced by the deterministic world; reliable messaging (duplicates/reordering explored, no loss).', 'TLA+ property formulas (EngineProps) evaluated by TLC on every step of recorded runs of the real engine under controlled schedules', '5, 7-C04'),
+    'C05': ('dataflow', 'model_checking',
+            'DataFlow.tla models the version-merge algorithm (outbound context = inbound + published with leaf-path counters; join = fold of '
+            'the upstream contexts in any order) and TLC proves SeesLatest / NoStaleCopy for every DAG of up to 5 tasks, every publish placement '
+            'and every fold order in the scalar and same-shape nested classes (and exhibits the counterexample for mixed shapes). Generated '
+            'fork/join programs (task-level publish / publish-on-error, transition-level branch and global publish, scalar and nested values, '
+            'YAQL / Jinja / literal renderings, input fallback) run on the real engine under both schedulers and 8 schedule policies; every task '
+            'echoes what its expressions see; TLC (DataFlowObsTrace) recomputes the causally latest publishers from the causal relation the '
+            'engine recorded and judges SeesLatest (stored inbound contexts), ProbeSeesLatest (what expressions see), GlobalVisible, '
+            'OutputSeesLatest, PublishedAsDefined and NoMutation (stored contexts of finished tasks and execution input never change) on every run.',
+            'id order of sibling rows (the fold order at a join) is random on the real engine, all orders only in the model; runs in which a join is '
+            're-armed (KF-C04-1) are outside the judged class; default configuration only (context versioning on, merge strategy replace). ' + ENG_NOTE,
+            'explicit TLA+ model of the data-flow algorithm checked exhaustively by TLC + TLA+ property formulas evaluated by TLC on recorded runs of the real engine',
+            '5, 7-C05'),
     'C06': ('engine', 'model_checking',
             'Engine side: runs of generated programs (incl. sub-workflows) with up to 2 messages (action results, sub-workflow results, '
             'start-task, start-workflow-with-id, run-action requests) re-delivered at random later points; TLC judges DupNoEffect (a '
